@@ -3,9 +3,15 @@ pub mod core;
 pub mod der;
 pub mod keys;
 pub mod model;
+pub mod c06_net;
+pub mod c06_src;
+pub mod c07_gen;
+pub mod c07_io;
+pub mod c07_lib;
 
 pub mod c01;
 pub mod c02;
+pub mod c02_cms;
 pub mod c03;
 pub mod c03_gen;
 pub mod c03_ip;
